@@ -372,6 +372,20 @@ func (fg *FuncGen) call(v *ssa.Call, c *ssa.CallCommon, instr ssa.Instruction) {
 			fg.obl("pre", fmt.Sprintf("pre@%s.%s", shortKey(key), lbl), v.Pos(), tags, t.S, "precondition of "+shortKey(key)+": "+r.Text)
 		}
 	}
+	// termination of recursion (C09): the callee's measure is below the caller's
+	if fg.g.Recursive()[callee] && fg.g.Recursive()[fg.fn] && fg.g.sccRep(callee) == fg.g.sccRep(fg.fn) {
+		nm := fmt.Sprintf("rec@%s.%d", shortKey(key), fg.recSeq(key))
+		if fg.c != nil && fg.c.Measure != nil && con != nil && con.Measure != nil {
+			cenv := fg.baseEnv(fg.st, fg.st)
+			cenv.vars = bind
+			cm := cenv.Tr(con.Measure.E)
+			m0 := fg.funcEnv(State{}, State{}, nil).Tr(fg.c.Measure.E)
+			fg.obl("rec", nm, v.Pos(), []string{"C09"}, fmt.Sprintf("(and (>= %s 0) (or (< %s %s) (and (= %s %s) %v)))", cm.S, cm.S, m0.S, cm.S, m0.S, con.Rank < fg.c.Rank),
+				fmt.Sprintf("recursion terminates: measure of %s (%s, rank %d) is below the measure of the caller at entry (%s, rank %d)", shortKey(key), con.Measure.Text, con.Rank, fg.c.Measure.Text, fg.c.Rank))
+		} else if (fg.c != nil && fg.c.Measure != nil) || (con != nil && con.Measure != nil) {
+			fg.obl("rec", nm, v.Pos(), []string{"C09"}, "false", "call inside a recursive cycle that is under a termination measure: caller and callee both carry a `measure` clause")
+		}
+	}
 	// effects
 	eff := fg.g.funcEffects(callee)
 	assigned := map[string]string{} // family -> ref term
@@ -812,7 +826,7 @@ func (fg *FuncGen) appendOp(v *ssa.Call, c *ssa.CallCommon) {
 	// ownership: appending may write into the spare capacity of s
 	if !strings.HasPrefix(s.S, "nilslice") {
 		fg.counters["frame"]++
-		o := &Obligation{Name: fmt.Sprintf("%s/frame.%d", shortKey(fg.key), fg.counters["frame"]), Kind: "frame", Func: fg.key, Tags: []string{"C06", "C07", "C18"},
+		o := &Obligation{Name: fmt.Sprintf("%s/frame.%d", shortKey(fg.key), fg.counters["frame"]), Kind: "frame", Func: fg.key, Tags: []string{"C06", "C07", "C15", "C18"},
 			Guard: fg.curReach, Goal: fmt.Sprintf("(or (>= (sref %s) %s) (= (slen %s) (scap %s)))", s.S, fg.wm0, s.S, s.S), Pos: fg.g.pos(v.Pos()),
 			Text: "append target is owned by this call or has no spare capacity", Expect: "unsat", Params: fg.paramConsts, Block: fg.segIdx, Via: -1}
 		fg.obls = append(fg.obls, o)
